@@ -8,6 +8,7 @@ FAIL=0
 for D in seeded/*/; do
   ID=$(basename "$D"); PID=${ID%-*}
   if [ -n "$SEL" ]; then case " $SEL " in *" $PID "*) ;; *) continue;; esac; fi
+  if grep -q '"status": "neutralised"' "$D/meta.json"; then echo "$ID skipped (no longer a fault on the current tree, see meta.json)"; continue; fi
   WT="/tmp/rs_$$"
   git -C /repo worktree add -q "$WT" HEAD || exit 2
   if git -C "$WT" apply "$PWD/$D/patch.diff" 2>/dev/null; then
